@@ -44,13 +44,14 @@ impl UserModel<'_> {
         let mut diff_list = Vec::new();
         let mut needs_evaluation = false;
 
-        if old_link.as_ref() != Some(&link) {
+        let link_changed = old_link.as_ref() != Some(&link);
+        if link_changed {
             self.model.set_cell_link(sheet, row, column, link.clone())?;
             diff_list.push(Diff::SetCellLink {
                 sheet,
                 row,
                 column,
-                old_value: Box::new(old_link),
+                old_value: Box::new(old_link.clone()),
                 new_value: Box::new(Some(link)),
             });
         }
@@ -70,8 +71,20 @@ impl UserModel<'_> {
                 } else {
                     old_value
                 };
-                self.model
-                    .set_user_input(sheet, row, column, label.to_string())?;
+                if let Err(e) = self
+                    .model
+                    .set_user_input(sheet, row, column, label.to_string())
+                {
+                    // The label cannot be written (for instance the cell is part of an
+                    // array formula): put the link back, a failed call changes nothing
+                    if link_changed {
+                        match old_link {
+                            Some(l) => self.model.set_cell_link(sheet, row, column, l)?,
+                            None => self.model.delete_cell_link(sheet, row, column)?,
+                        }
+                    }
+                    return Err(e);
+                }
                 needs_evaluation = true;
                 diff_list.push(Diff::SetCellValue {
                     sheet,
